@@ -80,6 +80,9 @@ type scenario struct {
 	times   []int64 // interesting timestamps (boundaries ±1)
 }
 
+// caseKey: 64-bit digest of a case description (keeps the distinctness set small).
+func caseKey(s string) string { return strconv.FormatUint(meta.HashID([]byte(s)), 36) }
+
 func hx2(s string) string { return "x" + hex.EncodeToString([]byte(s)) }
 
 func listOr(xs []string, sep string) string {
@@ -498,7 +501,7 @@ func (sc *scenario) runPoint(c *hx.Ctx, p *point) {
 			}
 		}
 	}
-	c.Case(fmt.Sprintf("point %d %s %d", p.t, p.tagText(), sc.nparts), boundary)
+	c.Case(caseKey(fmt.Sprintf("point %d %s %d %v", p.t, p.tagText(), sc.nparts, sc.key)), boundary)
 	if boundary {
 		c.Count("point:on-or-next-to-boundary")
 	}
@@ -991,7 +994,7 @@ func (sc *scenario) runCond(c *hx.Ctx, r *hx.Rng) {
 	} else {
 		c.Count("answer:pruned")
 	}
-	c.Case(fmt.Sprintf("%s|%v|%d|%v", op, sc.key, sc.nparts, sc.isRange), !allShards && (f.or || f.other))
+	c.Case(caseKey(fmt.Sprintf("%s|%v|%d|%v", op, sc.key, sc.nparts, sc.isRange)), !allShards && (f.or || f.other))
 	if !allShards && (f.or || f.other) {
 		c.Sample(fmt.Sprintf("key=%v parts=%d range=%v  %s  [%s] => %s", sc.key, sc.nparts, sc.isRange, text, mc, ans))
 	}
@@ -1053,7 +1056,7 @@ func Run(c *hx.Ctx) error {
 		"bounds, AND/OR/parentheses, wide AND-of-OR), raw or split by ConditionExpr. n counts conditions; each is checked against " +
 		"every point of its scenario. A condition is non-trivial when it pruned at least one alive shard and has an OR or a " +
 		"non-tag operand; a point when its timestamp is within 1ns of a group boundary."
-	n := c.Budget(4000, 300000)
+	n := c.Budget(40000, 2000000)
 	r := hx.NewRng(c.Seed)
 	done := 0
 	for done < n {
